@@ -23,7 +23,7 @@ fn bump(c: &'static std::thread::LocalKey<Cell<u64>>) {
 }
 
 fn gen_frame(i: u64) -> f64 {
-    i as f64
+    (i + 1) as f64
 }
 
 #[derive(Clone, Copy, PartialEq, Debug)]
@@ -41,6 +41,16 @@ struct Model {
     b: u64,
     cap: u64,
     last_sign: i64,
+    len: Option<u64>,
+}
+impl Model {
+    /// what the source yields at position `pos`
+    fn frame(&self, pos: u64) -> f64 {
+        match self.len {
+            Some(l) if pos >= l => 0.0,
+            _ => gen_frame(pos),
+        }
+    }
 }
 impl Model {
     fn pulled(&self) -> u64 {
@@ -66,9 +76,9 @@ macro_rules! drive {
             }
             bump(&EVALS);
             let step_no = $offset + k;
-            if got != gen_frame(pos) {
-                let what = if got < gen_frame(pos) { "frame_duplicated_or_reordered" } else { "frame_lost" };
-                $rep.violation(&format!("fork|{}", what), format!("step {} (branch {}): returned source frame {} but the branch is at position {}", step_no, if is_a { 'A' } else { 'B' }, got, pos), $case());
+            if got != $model.frame(pos) {
+                let what = if got < $model.frame(pos) { "frame_duplicated_or_reordered" } else { "frame_lost" };
+                $rep.violation(&format!("fork|{}", what), format!("step {} (branch {}): returned {} but the branch is at position {} (source frame value {})", step_no, if is_a { 'A' } else { 'B' }, got, pos, $model.frame(pos)), $case());
                 ok = false;
                 break;
             }
@@ -99,10 +109,29 @@ macro_rules! drive {
 }
 
 fn run_schedule(rep: &mut Report, cap: usize, sched: &[bool], mode: Mode, store_array: bool) -> bool {
-    let case = || format!("cap={};mode={:?};store={};sched={}", cap, mode, if store_array { "array" } else { "vec" }, sched_str(sched)).replace(' ', "");
+    run_schedule_len(rep, cap, sched, mode, store_array, None)
+}
+
+/// `src_len`: Some(L) = the source is exhausted after L frames (and yields equilibrium, i.e. 0.0,
+/// from then on - each such frame is still one pull that both branches must observe)
+fn run_schedule_len(rep: &mut Report, cap: usize, sched: &[bool], mode: Mode, store_array: bool, src_len: Option<u64>) -> bool {
+    match vmon::catch(std::panic::AssertUnwindSafe(|| run_schedule_inner(rep, cap, sched, mode, store_array, src_len))) {
+        Ok(ok) => ok,
+        Err(m) => {
+            rep.violation("fork|panic", format!("cap {} mode {:?} len {:?} schedule {}: panicked: {}", cap, mode, src_len, sched_str(sched), m), format!("cap={};mode={:?};store={};len={};sched={}", cap, mode, if store_array { "array" } else { "vec" }, src_len.map(|l| l as i64).unwrap_or(-1), sched_str(sched)).replace(' ', ""));
+            false
+        }
+    }
+}
+
+fn run_schedule_inner(rep: &mut Report, cap: usize, sched: &[bool], mode: Mode, store_array: bool, src_len: Option<u64>) -> bool {
+    let case = || format!("cap={};mode={:?};store={};len={};sched={}", cap, mode, if store_array { "array" } else { "vec" }, src_len.map(|l| l as i64).unwrap_or(-1), sched_str(sched)).replace(' ', "");
     let probe = Probe::new();
-    let src = USource::infinite(gen_frame, probe.clone());
-    let mut model = Model { a: 0, b: 0, cap: cap as u64, last_sign: 0 };
+    let src = match src_len {
+        Some(l) => USource::generated(gen_frame, l, probe.clone()),
+        None => USource::infinite(gen_frame, probe.clone()),
+    };
+    let mut model = Model { a: 0, b: 0, cap: cap as u64, last_sign: 0, len: src_len };
     macro_rules! go {
         ($ring:expr) => {{
             let mut fork = src.fork($ring);
@@ -237,7 +266,8 @@ fn main() {
             Mode::RefThenRc(num(ms))
         };
         eprintln!("CASE {}", cs);
-        run_schedule(&mut rep, cap, &sched, mode, m["store"] == "array");
+        let l: i64 = m.get("len").map(|x| x.parse().unwrap()).unwrap_or(-1);
+        run_schedule_len(&mut rep, cap, &sched, mode, m["store"] == "array", if l < 0 { None } else { Some(l as u64) });
         flush(&mut rep);
         finish(&cli, rep, t0);
     }
@@ -247,13 +277,17 @@ fn main() {
     let lean = cli.stage == "miri";
     match cli.stage.as_str() {
         "main" | "asan" => {
-            let len = if cli.stage == "asan" { 10 } else { cli.t(12, 16) };
+            let len = if cli.stage == "asan" { 10 } else { cli.t(12, 18) };
             let caps: Vec<usize> = (1..=4).collect();
             let reps = vmon::par_for(cli.threads, caps.len() as u64 * 2, 1, |_| Report::new("C12", "w"), |rep, i| {
                 let cap = caps[(i / 2) as usize];
                 let mode = if i % 2 == 0 { Mode::ByRef } else { Mode::ByRc };
+                let mut k = 0u64;
                 enumerate(cap, len, |s| {
                     run_schedule(rep, cap, s, mode, cap % 2 == 0);
+                    // the same schedule over sources that run dry part-way (incl. at once)
+                    k += 1;
+                    run_schedule_len(rep, cap, s, mode, false, Some(k % (len as u64 / 2 + 2)));
                     if is_nontrivial(cap, s) {
                         rep.nontrivial(vmon::hash_combine(cap as u64 * 2 + (i % 2), vmon::hash_str(&sched_str(s))));
                     }
@@ -272,7 +306,7 @@ fn main() {
             }
             rep.exhaustive(format!("capacities 1..=4 x every schedule in {{A,B}}^{} whose lead stays within the capacity, by_ref and by_rc; every schedule of length 10 re-split at every point (second by_ref, and by_rc after by_ref)", len));
             // random long schedules, capacities to 64
-            let n_rand = cli.t(300u64, 20_000u64);
+            let n_rand = cli.t(300u64, 200_000u64);
             let reps = vmon::par_for(cli.threads, n_rand, 4, |_| Report::new("C12", "w"), |rep, i| {
                 let mut rng = Rng::derive(cli.seed, &[12, i]);
                 let cap = 1 + rng.usize_below(64);
@@ -284,7 +318,8 @@ fn main() {
                     2 => Mode::ReSplitRef(rng.usize_below(len)),
                     _ => Mode::RefThenRc(rng.usize_below(len)),
                 };
-                run_schedule(rep, cap, &s, mode, false);
+                let src_len = if rng.chance(1, 3) { Some(rng.below(len as u64 / 2)) } else { None };
+                run_schedule_len(rep, cap, &s, mode, false, src_len);
                 rep.nontrivial(vmon::hash_combine(cap as u64, vmon::hash_str(&sched_str(&s[..64]))));
                 if rep.want_sample() && i % 37 == 0 {
                     rep.sample(J::obj().set("cap", J::u(cap as u64)).set("mode", J::s(format!("{:?}", mode))).set("schedule_prefix", J::s(sched_str(&s[..48]))).set("length", J::u(len as u64)));
@@ -313,7 +348,7 @@ fn main() {
                     if lean {
                         eprintln!("CASE cap={};mode={:?};store=array;sched={}", cap, mode, sched_str(s));
                     }
-                    run_schedule(&mut rep, cap, s, mode, item % 2 == 0);
+                    run_schedule_len(&mut rep, cap, s, mode, item % 2 == 0, if item % 3 == 0 { Some(item % 5) } else { None });
                 });
             }
         }
